@@ -285,7 +285,7 @@ pub fn gen_sink(r: &mut Rng, tier: Tier, job: u64) -> Plan {
             matches!(&c.act, Act::Program(p) if !p.units.iter().any(|u| matches!(u, Unit::Rows(r) if r.contra.is_some())))
         }) {
             if let Act::Program(p) = &mut cmds[i].act {
-                let at = r.below(p.units.len() as u64 + 1) as u32;
+                let at = r.below(p.units.len() as u64 + 2) as u32;
                 p.ret_err = Some((at, 0xE200_0000 | r.below(1 << 20) as u32));
             }
         }
